@@ -802,5 +802,59 @@ def sql_exact_dao(prog: Program) -> RuleResult:
     return r
 
 
+def sql_clause_truth(prog: Program) -> RuleResult:
+    """What the translator's methods hand back may be a SQLAlchemy expression. The truth of such an object is not "is there something":
+    `bool(a == b)` compares the two sides (True when both are the same column - the inherited relationship of two sibling classes - an
+    error or False otherwise). Results of translating methods are therefore told apart with `is True` / `is None` / `is not None`, never by
+    their truth."""
+    r = RuleResult("SQL-CLAUSE-TRUTH", "results of translating methods are never tested for truth", floor=3)
+    tr = prog.cls(TR)
+    producers = {n for n, m in tr.methods.items() if n.startswith(("translate_", "_translate_", "_handle_", "_combine_")) and m.node.returns is not None
+                 and not ast.unparse(m.node.returns).strip() in ("bool", "None", "List[Any]", "List[str]")}
+    n = 0
+    for g in sorted(tr.methods.values(), key=lambda x: x.qual):
+        clause = set()
+        for x in walk_local(g.node):
+            if isinstance(x, ast.Assign) and isinstance(x.value, ast.Call) and isinstance(x.value.func, ast.Attribute) and is_self_attr(x.value.func) and x.value.func.attr in producers:
+                clause |= {t.id for t in x.targets if isinstance(t, ast.Name)}
+            if isinstance(x, (ast.For, ast.comprehension)) and isinstance(x.target, ast.Name) and isinstance(x.iter, ast.Name) and x.iter.id in ("parts",):
+                pass
+        if not clause:
+            continue
+        n += 1
+
+        def operands(t):
+            if isinstance(t, ast.BoolOp):
+                for v in t.values:
+                    yield from operands(v)
+            elif isinstance(t, ast.UnaryOp) and isinstance(t.op, ast.Not):
+                yield from operands(t.operand)
+            else:
+                yield t
+
+        bad = None
+        for x in walk_local(g.node):
+            tests = []
+            if isinstance(x, (ast.If, ast.While, ast.IfExp)):
+                tests.append(x.test)
+            if isinstance(x, ast.comprehension):
+                tests += x.ifs
+            if isinstance(x, ast.UnaryOp) and isinstance(x.op, ast.Not):
+                tests.append(x.operand)
+            if isinstance(x, ast.Call) and isinstance(x.func, ast.Name) and x.func.id == "bool" and x.args:
+                tests.append(x.args[0])
+            for t in tests:
+                for o in operands(t):
+                    if isinstance(o, ast.Name) and o.id in clause:
+                        bad = bad or (x, o)
+        r.check(bad is None, f"{g.short}#no-truth-test:{'+'.join(sorted(clause))}", site(g, bad[0]) if bad else site(g), src(bad[0])[:80].replace("\n", " ") if bad else "",
+                "translation results are compared with `is`",
+                f"{bad[1].id if bad else ''} may be a SQLAlchemy expression and is tested for truth: the truth of `fk_a == fk_b` is whether both sides are the same column - for the same "
+                "inherited relationship on two sibling classes (f.child == p.child) the second join condition counts as 'handled by a JOIN' and disappears from the statement")
+    if n < 3:
+        raise AnalysisError(f"SQL-CLAUSE-TRUTH: only {n} translator methods hold results of translating methods in locals")
+    return r
+
+
 def run(prog: Program, tier: str) -> List[RuleResult]:
-    return [sql_reject(prog), sql_ops(prog), sql_varid(prog), sql_alias(prog), sql_fetch(prog), sql_membership(prog), sql_chain(prog), sql_state(prog), sql_exact_dao(prog)]
+    return [sql_reject(prog), sql_ops(prog), sql_varid(prog), sql_alias(prog), sql_fetch(prog), sql_membership(prog), sql_chain(prog), sql_state(prog), sql_exact_dao(prog), sql_clause_truth(prog)]
